@@ -294,7 +294,7 @@ func handleExtraFieldList(p *SelectPlan, stmt *ast.SelectStmt) {
 	for i := 0; i < len(p.groupByColumn); i++ {
 		p.groupByColumn[i] -= deleteNum
 		currColumnIndex := p.originColumnCount + i - deleteNum
-		field, isColumnExpr := stmt.Fields.Fields[currColumnIndex].Expr.(*ast.ColumnNameExpr)
+		field, isColumnExpr := columnNameExprOfField(stmt.Fields.Fields[currColumnIndex])
 		if !isColumnExpr {
 			continue
 		}
@@ -310,7 +310,7 @@ func handleExtraFieldList(p *SelectPlan, stmt *ast.SelectStmt) {
 	for i := 0; i < len(p.orderByColumn); i++ {
 		p.orderByColumn[i] -= deleteNum
 		currColumnIndex := p.originColumnCount + len(p.groupByColumn) + i - deleteNum
-		field, isColumnExpr := stmt.Fields.Fields[currColumnIndex].Expr.(*ast.ColumnNameExpr)
+		field, isColumnExpr := columnNameExprOfField(stmt.Fields.Fields[currColumnIndex])
 		if !isColumnExpr {
 			continue
 		}
@@ -370,14 +370,28 @@ func createSelectFieldFromByItem(p *SelectPlan, item *ast.ByItem) (*ast.SelectFi
 	}
 
 	if need {
+		// the column appended to the field list must be rewritten like the ORDER BY / GROUP BY
+		// item itself, otherwise the logical db / table name is sent to the backend
 		decorator := CreateColumnNameExprDecorator(columnExpr, rule, isAlias, p.GetRouteResult())
 		item.Expr = decorator
+		return &ast.SelectField{Expr: decorator}, nil
 	}
 
 	ret := &ast.SelectField{
 		Expr: columnExpr,
 	}
 	return ret, nil
+}
+
+// columnNameExprOfField returns the column of a select field that is a plain or decorated column name.
+func columnNameExprOfField(f *ast.SelectField) (*ast.ColumnNameExpr, bool) {
+	switch e := f.Expr.(type) {
+	case *ast.ColumnNameExpr:
+		return e, true
+	case *ColumnNameExprDecorator:
+		return e.ColumnNameExpr, true
+	}
+	return nil, false
 }
 
 // 处理from table和join on部分
